@@ -192,3 +192,67 @@ func alternatingKind(p *core.Program) (int64, bool) {
 	}
 	return 0, false
 }
+
+// requiredSetsField: the CharRecipe field holding the prepared required sets (the one slice-of-struct field).
+func requiredSetsField(p *core.Program) string {
+	return fieldByType(p, "CharRecipe", func(t types.Type) bool {
+		sl, ok := t.Underlying().(*types.Slice)
+		if !ok {
+			return false
+		}
+		_, isStruct := sl.Elem().Underlying().(*types.Struct)
+		return isStruct
+	}, "requiredSets")
+}
+
+// wlRecipeListField: the WLRecipe field holding the word list.
+func wlRecipeListField(p *core.Program) string {
+	return fieldByType(p, "WLRecipe", func(t types.Type) bool {
+		pt, ok := t.(*types.Pointer)
+		return ok && core.NamedOf(pt.Elem()) == core.ModulePath+".WordList"
+	}, "list")
+}
+
+// entropySimpleFunc: the library function computing length*log2(size) — by name, or by role: the
+// package-level function of two ints with one floating-point result that CharRecipe.Entropy calls.
+func entropySimpleFunc(p *core.Program) *ssa.Function {
+	if f := p.Func("entropySimple"); f != nil {
+		return f
+	}
+	ent := p.Method("CharRecipe", "Entropy")
+	if ent == nil {
+		return nil
+	}
+	for _, c := range core.Calls(ent) {
+		f := core.StaticCallee(c)
+		if f == nil || !p.InLib(f) || f.Parent() != nil || f.Signature.Recv() != nil || f.Signature.Params().Len() != 2 || f.Signature.Results().Len() != 1 {
+			continue
+		}
+		isInt := func(t types.Type) bool {
+			b, ok := t.Underlying().(*types.Basic)
+			return ok && b.Info()&types.IsInteger != 0
+		}
+		rb, ok := f.Signature.Results().At(0).Type().Underlying().(*types.Basic)
+		if ok && rb.Info()&types.IsFloat != 0 && isInt(f.Signature.Params().At(0).Type()) && isInt(f.Signature.Params().At(1).Type()) {
+			return f
+		}
+	}
+	return nil
+}
+
+// failRateGate: the (bool, float) helper CharRecipe.Generate consults before drawing.
+func failRateGate(p *core.Program) *ssa.Function {
+	gen := p.Method("CharRecipe", "Generate")
+	if gen == nil {
+		return nil
+	}
+	var pre *ssa.Function
+	for _, c := range core.Calls(gen) {
+		if f := core.StaticCallee(c); f != nil && p.InLib(f) && f.Signature.Results().Len() == 2 {
+			if b, ok := f.Signature.Results().At(0).Type().Underlying().(*types.Basic); ok && b.Kind() == types.Bool {
+				pre = f
+			}
+		}
+	}
+	return pre
+}
